@@ -6,12 +6,20 @@ from .cmptables import _find_analyses, _addr_consts
 DEFAULT = (("int_fields", None), ("addr_fields", ["RekeyTo"]), ("fee_field", ["Fee"]), ("txn_types", None))
 
 
-def analyse(ctx, src, which=DEFAULT, path=("B0",)):
-    """{(key): {block idx: normalised value}} of the function cut out by `path`"""
+def analyse(ctx, src, which=DEFAULT, path=("B0",), reverse_order=False):
+    """{(key): {block idx: normalised value}} of the function cut out by `path`; reverse_order=True hands the analyses the function's
+    block list and subroutine table in the opposite order (the order of both is an accident of set iteration in construct_function)"""
     w = ctx.world
     w.module(PF).values["_apply_transaction_context_analysis"] = ("builtin", "noop")
     teal = w.call(w.func(PT, "parse_teal"), src, "c")
     fn = w.call(w.func(PF, "construct_function"), teal, list(path))
+    if reverse_order:
+        blocks = w.getattr(fn, "blocks")
+        blocks.reverse()
+        subs = w.getattr(fn, "subroutines")
+        items = list(subs.items())[::-1]
+        subs.clear()
+        subs.update(items)
     an = _find_analyses(ctx)
     out = {}
     for modname, keys in which:
